@@ -238,6 +238,7 @@ type fileState struct {
 	pos    int
 	closed bool
 	wr     bool
+	wpos   int // write offset (files opened for writing)
 }
 
 var openFiles = map[*os.File]*fileState{}
@@ -247,6 +248,36 @@ func OsOpen(name string) (*os.File, error) { return OsOpenFile(name, os.O_RDONLY
 
 //verif:replace os.OpenFile
 func OsOpenFile(name string, flag int, perm fs.FileMode) (*os.File, error) {
+	if flag&(os.O_WRONLY|os.O_RDWR) != 0 {
+		// opened for writing: the file keeps what it holds unless O_TRUNC is given;
+		// writes go to the current offset (the end with O_APPEND)
+		n := follow(find(name))
+		_, written := Written[name]
+		if n == nil && !written && flag&os.O_CREATE == 0 {
+			return nil, notExist("open", name)
+		}
+		Created = append(Created, name)
+		if CreateErr != nil {
+			return nil, CreateErr
+		}
+		var cur []byte
+		if written {
+			cur = Written[name]
+		} else if n != nil {
+			cur = append([]byte{}, n.Content...)
+		}
+		if flag&os.O_TRUNC != 0 {
+			cur = nil
+		}
+		Written[name] = cur
+		st := &fileState{name: name, wr: true}
+		if flag&os.O_APPEND != 0 {
+			st.wpos = len(cur)
+		}
+		f := new(os.File)
+		openFiles[f] = st
+		return f, nil
+	}
 	n := follow(find(name))
 	if n == nil {
 		return nil, notExist("open", name)
@@ -339,7 +370,16 @@ func FileWrite(f *os.File, p []byte) (int, error) {
 	if st == nil || !st.wr || st.closed {
 		return 0, fs.ErrClosed
 	}
-	Written[st.name] = append(Written[st.name], p...)
+	cur := Written[st.name]
+	for i := range p {
+		if st.wpos+i < len(cur) {
+			cur[st.wpos+i] = p[i]
+		} else {
+			cur = append(cur, p[i])
+		}
+	}
+	st.wpos += len(p)
+	Written[st.name] = cur
 	return len(p), nil
 }
 
@@ -554,6 +594,27 @@ func Exists(path string) bool {
 		}
 	}
 	return ex
+}
+
+// FileContent returns what a path holds at the end of the run (nil if it does not exist).
+func FileContent(path string) []byte {
+	if !zz.Symbolic() {
+		b, err := os.ReadFile(path)
+		if err != nil {
+			return nil
+		}
+		return b
+	}
+	if !Exists(path) {
+		return nil
+	}
+	if b, ok := Written[path]; ok {
+		return b
+	}
+	if n := follow(find(path)); n != nil {
+		return n.Content
+	}
+	return nil
 }
 
 // NativePath maps a model path to where it is materialised natively (identity symbolically).
